@@ -209,7 +209,8 @@ def random_exec(rng: PlanRng, n_u, n_base, mode, max_n=None):
     ex = {"seq": [int(i) for i in seq], "bs": bs, "warm": rng.coin(0.75),
           "kinds": sorted(set(kinds)),
           # memory layout / container of the arrays handed to the call (values identical)
-          "layout": rng.choice(["C", "F", "strided", "list", "readonly"], p=[5, 2, 1, 1, 1])}
+          "layout": rng.choice(["C", "F", "strided", "list", "readonly"], p=[5, 2, 1, 1, 1]),
+          "keep": rng.coin(0.25)}
     if mode == "faults" and rng.coin(0.7):
         ex["fault"] = {"kind": rng.choice(["solver_error", "line_interrupt", "warnings_as_errors"],
                                           p=[0.5, 0.35, 0.15]),
@@ -381,7 +382,7 @@ def as_layout(a, layout):
     return a
 
 
-def run_fit(plan, est, seq, bs, l1_all=None, kw_override=None, layout="C"):
+def run_fit(plan, est, seq, bs, l1_all=None, kw_override=None, layout="C", keep_registered=False):
     """One fitting call on the stream U[seq]. Returns (X, B_pred)."""
     U = plan["U"]
     Bp = as_layout(U[seq], layout)
@@ -396,8 +397,12 @@ def run_fit(plan, est, seq, bs, l1_all=None, kw_override=None, layout="C"):
         else:
             est.fit(model=proc, batch_size=bs, **kw)
         return est.X, est.B
-    # unweighted: make sure no stale per-sample weights are registered
-    est.register_targets(Bp)
+    # unweighted: the fit gets its targets explicitly.  Usually the same stream is registered
+    # first (so that no stale registration is around); with keep_registered the estimator still
+    # holds whatever the previous call registered - another stream with another row count -
+    # which an explicit-target fit must not care about
+    if not keep_registered:
+        est.register_targets(Bp)
     if proc == "minimize_variance":
         if l1_all is not None:
             kw["L1"] = l1_all[seq]
@@ -561,7 +566,10 @@ def execute(plan):
                     check_rows(np.asarray(Xw), np.asarray(Bw), seq, ex, "under -W error")
             # hidden state after an aborted solve sequence: the same call again, unfaulted
             with SolveSeam(cold=not ex["warm"]) as seam:
-                out = call(run_fit, plan, est, seq, bs, l1_all, None, ex.get("layout", "C"))
+                out = call(run_fit, plan, est, seq, bs, l1_all, None, ex.get("layout", "C"),
+                           bool(ex.get("keep")) and plan["W"] is None)
+            if ex.get("keep") and plan["W"] is None:
+                bump("reach:explicit_fit_over_stale_registration")
             steps += seam.count
             log.add(ei, "exec", out)
             # trace monitor (evidence only): which batch structure did the code really run?
